@@ -55,6 +55,9 @@ def contract_outcome(c: FunctionContract, factory_ref: str) -> Outcome:
         b[0] += 1
         b[1] += e.seconds
     extra = dict(function=extract.func_ref(c.module, c.qualname), paths=rep.paths, inlined=rep.inlined, opaque_calls=rep.opaque, by_backend={k: [v[0], round(v[1], 3)] for k, v in by_backend.items()})
+    if getattr(rep, "defaults_bound", None):
+        # stage 2 of verify_contract: the claim is restricted to calls that leave these parameters at their defaults
+        extra["restricted_to_default_parameters"] = sorted(set(rep.defaults_bound))
     if errors:
         return Outcome("crashed", "pyvc", [], "\n".join(e.detail for e in errors[:3]), extra, count=n, discharged=dis)
     if wits:
